@@ -6,7 +6,7 @@
     enthalpy orderings named in each statement (steam enthalpy above liquid enthalpy at each
     separator pressure; for two stages also second-stage steam above first-stage liquid). *)
 From Coq Require Import ZArith QArith Qreals Reals List Bool Lra.
-From P Require Import Expr Bounds.
+From P Require Import Expr Common.
 From Gen Require Import GenThermo GenTraced.
 Import ListNotations.
 Close Scope Q_scope.
